@@ -734,7 +734,17 @@ func (fc *FnCtx) heapHavoc(st *State, key string) {
 }
 
 func (fc *FnCtx) fieldKey(owner types.Type, field string) string {
-	return "H$" + fc.typeName(owner) + "$" + field
+	// a generic type has one heap array per field, whatever its type arguments are written as
+	// (TKeyLocker[T] in a method body, TKeyLocker[T comparable] when named in a contract)
+	return "H$" + fc.ownerName(owner) + "$" + field
+}
+
+// ownerName: typeName, with the type arguments of a generic named type erased.
+func (fc *FnCtx) ownerName(owner types.Type) string {
+	if n, ok := owner.(*types.Named); ok && n.TypeParams() != nil && n.TypeParams().Len() > 0 && n.Obj().Pkg() != nil {
+		return n.Obj().Pkg().Path() + "." + n.Obj().Name() + "[]"
+	}
+	return fc.typeName(owner)
 }
 
 func (fc *FnCtx) elemsKey(elem types.Type) (string, string) {
